@@ -145,6 +145,25 @@ def judge_c17(w, acc, order):
                              case, "a batch is written", repr(e)[:300], order))
         return
     out = buf.getvalue()
+    # the same batch appended to a buffer that already holds data, and written to a write-only sink, must
+    # give the same bytes (a batch is one element of a records blob / a stream)
+    pre = b"\x00\xff\x7f" * 5
+    for label, mk in (("appended-to-non-empty-buffer", lambda: io.BytesIO()), ("write-only-sink", lambda: streams.WriteOnlySink())):
+        acc.add("evaluations")
+        sink = mk()
+        sink.write(pre)
+        try:
+            write_batch(sink, kio_new_batch(nb))
+            got = sink.getvalue()[len(pre):]
+            other = getattr(sink, "other", [])
+        except Exception as e:  # noqa: BLE001
+            acc.report(violation("C17", "write", f"C17/{label}/raised/{exc_name(e)}", "kio.records.writers:write_batch", case,
+                                 "same bytes as on a fresh buffer", repr(e)[:300], order))
+            return
+        if got != out or other:
+            acc.report(violation("C17", "write", f"C17/{label}/bytes-depend-on-the-buffer", "kio.records.writers:write_batch", case,
+                                 out.hex()[:300], f"{got.hex()[:300]} other={other}", order))
+            return
     try:
         got, used = refbatch.decode_batch(out)
     except refbatch.RefError as e:
